@@ -7,6 +7,9 @@ import OtelVerif.Model.C07Prim
 import OtelVerif.Model.C07Msg
 import OtelVerif.Gen.PdataCensus
 import OtelVerif.Gen.PdataSlices
+import OtelVerif.Lemmas.C07State
+import OtelVerif.Lemmas.C07NestRaw
+import OtelVerif.Lemmas.C07NestAll
 /-!
 # C07 — data-model copy, move, remove and read-only operations have value semantics
 
@@ -873,6 +876,143 @@ example : WfNestProg N.St.init [.setRoot 0 (.list true), .setSlot 0 0 (.key 1) (
     .copyVal 0 (.slot 0 0) 1 (.slot 3 0), .bytesAppend 1 5 9, .remove 0 1 2, .removeIf 1 3 [false]] := by
   decide
 
+/-! ### from-raw with NESTED raw input (`Model/C07NestRaw.lean`, `Lemmas/C07NestRaw.lean`): `Value.FromRaw` / `Map.FromRaw` / `Slice.FromRaw`
+
+`Value.FromRaw(iv)` at a position is, as in `pcommon/value.go`, `Set*` / `SetEmptyBytes().FromRaw` / `SetEmptyMap()` / `SetEmptySlice()`
+(`setRoot` / `setSlot`) followed, for a map or slice input, by `Map.FromRaw` / `Slice.FromRaw` on the NEW container (`OpR.fromRawList`).
+The `nest` differential runs exactly this decomposition against the real `Value.FromRaw` at random positions. -/
+
+/-- **from-raw, heap level, any heap, any raw input of any depth and width**: nothing allocated before is written; the value built
+consists of NEW wrappers only (its footprint lies in `[h.next, h'.next)`: it shares nothing with any existing value, in particular not
+with another value filled from the same raw input), is duplicate-free, and reads exactly as the raw input -/
+theorem C07_nest_fromraw_deep (h : N.Heap) (r : N.Raw) : N.RawPost h r (N.fromRaw h r) := N.fromRaw_spec r h
+
+/-- one step of the extended programs (every operation of the nested model on targets at any depth, or `Map.FromRaw` / `Slice.FromRaw` on a
+container at any depth): forest invariant kept, every root not targeted reads as before -/
+theorem C07_nest_fromraw_step (s : N.St) (hi : N.Inv s) (op : N.OpR) (hw : N.WfOpR s op) :
+    N.Inv (N.stepR s op).1 ∧ ∀ c, c ∉ N.touchedR op → N.absRoot (N.stepR s op).1 c = N.absRoot s c :=
+  N.stepR_spec hi op hw
+
+theorem C07_nest_fromraw_separation_all (prog : List N.OpR) (s : N.St) (hi : N.Inv s) (hw : N.WfProgR s prog) : N.Inv (N.runR s prog) := by
+  induction prog generalizing s with
+  | nil => exact hi
+  | cons op ops ih => exact ih _ (N.stepR_spec hi op hw.1).1 hw.2
+
+theorem C07_nest_fromraw_frame_all (prog : List N.OpR) (s : N.St) (hi : N.Inv s) (hw : N.WfProgR s prog) (c : Nat)
+    (hc : ∀ op ∈ prog, c ∉ N.touchedR op) : N.absRoot (N.runR s prog) c = N.absRoot s c := by
+  induction prog generalizing s with
+  | nil => rfl
+  | cons op ops ih =>
+    obtain ⟨h1, h2⟩ := N.stepR_spec hi op hw.1
+    simp only [N.runR]
+    rw [ih _ h1 hw.2 (fun o ho => hc o (List.mem_cons_of_mem _ ho))]
+    exact h2 c (hc op List.mem_cons_self)
+
+/-- result of `Map.FromRaw` / `Slice.FromRaw` on a container at any depth: its header is a NEW array of exactly as many slots as the input
+has entries (nothing beyond `len`: no stale slot survives), and its entries read exactly as the raw input -/
+theorem C07_nest_fromraw_result (s : N.St) (hi : N.Inv s) (r o : Nat) (kids : N.RawL)
+    (ho : N.ownsList s.dep s.h (s.root r) o) (hro : s.ro r = false) :
+    ((N.stepR s (.fromRawList r o kids)).1.h.wl o).tail = [] ∧ ((N.stepR s (.fromRawList r o kids)).1.h.wl o).live.length = N.lenL kids ∧
+    ((N.stepR s (.fromRawList r o kids)).1.h.wl o).live.flatMap
+        (fun kv => N.Tok.key kv.key :: N.absV (max s.dep (N.depthL kids)) (N.stepR s (.fromRawList r o kids)).1.h kv.val) = N.absRawL kids :=
+  (N.fromRawList_spec hi r o kids ho hro).2.2
+
+/-- end to end for a root value: `Value.FromRaw` of a map / slice input of any depth and width (done as the code does it: `SetEmptyMap()` /
+`SetEmptySlice()`, then `Map.FromRaw` / `Slice.FromRaw` on the container just made) makes the root read EXACTLY as the raw input, keeps the
+forest invariant (the new value shares nothing with any other value — in particular not with another root filled from the same input) and
+leaves every other root reading as before -/
+theorem C07_nest_fromraw_root_reads (s : N.St) (hi : N.Inv s) (r : Nat) (km : Bool) (kids : N.RawL) (hro : s.ro r = false) :
+    N.Inv (N.fromRawRoot s r km kids) ∧ N.absRoot (N.fromRawRoot s r km kids) r = N.absRaw (.list km kids) ∧
+    ∀ c, c ≠ r → N.absRoot (N.fromRawRoot s r km kids) c = N.absRoot s c :=
+  N.fromRawRoot_reads hi r km kids hro
+
+/-- read-only: `Map.FromRaw` / `Slice.FromRaw` below a read-only root panics with the state unchanged (definitional, like `C07_nest_readonly`) -/
+theorem C07_nest_fromraw_readonly (s : N.St) (r o : Nat) (kids : N.RawL) (hro : s.ro r = true) :
+    N.stepR s (.fromRawList r o kids) = (s, true) := by simp [N.stepR, hro]
+
+/-- non-vacuity: two roots filled from the SAME nested raw input (a map holding bytes, a nested map and a slice with a map in it), then
+edited on one side: well-formed by `decide`; both read the raw input right after the fill -/
+def rawDemo : N.RawL :=
+  .cons 1 (.bytes [7, 8]) (.cons 2 (.list true (.cons 5 (.scalar 0 3) .nil)) (.cons 3 (.list false (.cons 0 (.list true .nil) (.cons 0 (.bytes []) .nil))) .nil))
+
+example : N.WfProgR N.St.init [.base (.setRoot 0 (.list true)), .fromRawList 0 0 rawDemo, .base (.setRoot 1 (.list true)), .fromRawList 1 6 rawDemo,
+    .base (.bytesAppend 0 1 9), .base (.remove 1 6 2)] := by decide
+
+example : let s := N.runR N.St.init [.base (.setRoot 0 (.list true)), .fromRawList 0 0 rawDemo, .base (.setRoot 1 (.list true)), .fromRawList 1 6 rawDemo]
+    N.absRoot s 0 = N.absRaw (.list true rawDemo) ∧ N.absRoot s 1 = N.absRaw (.list true rawDemo) := by decide
+
+/-! ### `Slice.MoveAndAppendTo` at PROGRAM level (root slices) and programs of ALL operations (`Lemmas/C07NestMove.lean`, `Lemmas/C07NestAll.lean`)
+
+`N.WfOp (.moveAppend …) = False`: the replacement contracts cannot express that the destination ADOPTS the source's children.  For two slices
+held by distinct roots (top-level `pcommon.Slice`s with arbitrarily nested elements, any capacities, any garbage beyond `len`) the step is
+proved directly from the definition of the forest invariant, for all three branches of the code. -/
+
+/-- move-and-append between the slices of two distinct roots: forest invariant kept (so the moved elements are owned by the destination only —
+nothing is shared), every other root reads as before, the source reads empty, the destination reads as its old elements followed by the
+source's old elements, each reading as before (order kept) -/
+theorem C07_nest_move_append_roots (s : N.St) (hi : N.Inv s) (rs rd o1 o2 c : Nat) (k1 k2 : Bool) (hne : rs ≠ rd)
+    (h1 : s.root rs = .list k1 o1) (h2 : s.root rd = .list k2 o2) :
+    N.Inv (N.step s (.moveAppend rs o1 rd o2 c)).1 ∧
+    (∀ x, x ≠ rs → x ≠ rd → N.absRoot (N.step s (.moveAppend rs o1 rd o2 c)).1 x = N.absRoot s x) ∧
+    ((s.ro rs || s.ro rd) = false →
+      N.absRoot (N.step s (.moveAppend rs o1 rd o2 c)).1 rs = [.opn k1 0] ∧
+      ∃ d0, s.dep = d0 + 1 ∧
+        N.absRoot (N.step s (.moveAppend rs o1 rd o2 c)).1 rd =
+          .opn k2 ((s.h.wl o2).live.length + (s.h.wl o1).live.length) ::
+            ((s.h.wl o2).live ++ (s.h.wl o1).live).flatMap (fun kv => N.Tok.key kv.key :: N.absV d0 s.h kv.val)) :=
+  N.move_append_roots_spec hi rs rd o1 o2 c k1 k2 hne h1 h2
+
+/-- **`Slice.MoveAndAppendTo` between slices nested ANYWHERE** (`Lemmas/C07NestAdopt.lean`: the local-update lemma generalised by a list of
+ADOPTED ids — orphans reachable from no root — and a list of ids that must have become unreachable; the move = unlink the source's children
+(they become orphans), then link them under the destination): for two containers of the forest, distinct, neither inside the other — under
+one root or two, all three branches of the code — the forest invariant is kept (the moved elements are owned by the destination alone, the
+emptied source shares nothing with it) and every root above neither of them reads as before.  This discharges the exclusion
+`N.WfOp (.moveAppend …) = False`. -/
+theorem C07_nest_move_append_nested (s : N.St) (hi : N.Inv s) (rs o1 rd o2 c : Nat) (hw : N.WfMove s rs o1 rd o2) :
+    N.Inv (N.step s (.moveAppend rs o1 rd o2 c)).1 ∧
+    ∀ x, x ∉ N.touched (.moveAppend rs o1 rd o2 c) → N.absRoot (N.step s (.moveAppend rs o1 rd o2 c)).1 x = N.absRoot s x :=
+  N.move_append_spec hi rs o1 rd o2 c hw
+
+/-- …and its result ("move-and-append keeps exactly the expected elements in order"), for slices nested anywhere: the destination holds its
+old elements followed by the source's old elements, in order, each reading exactly as before; the source keeps neither elements nor an array -/
+theorem C07_nest_move_append_nested_result (s : N.St) (hi : N.Inv s) (rs o1 rd o2 c : Nat) (hw : N.WfMove s rs o1 rd o2)
+    (hro : (s.ro rs || s.ro rd) = false) :
+    ((N.step s (.moveAppend rs o1 rd o2 c)).1.h.wl o2).live = (s.h.wl o2).live ++ (s.h.wl o1).live ∧
+    (N.step s (.moveAppend rs o1 rd o2 c)).1.h.wl o1 = {} ∧
+    ∀ kv ∈ (s.h.wl o2).live ++ (s.h.wl o1).live,
+      N.absV s.dep (N.step s (.moveAppend rs o1 rd o2 c)).1.h kv.val = N.absV s.dep s.h kv.val :=
+  N.move_append_children_same hi rs o1 rd o2 c hw hro
+
+/-- separation for programs of ALL operations: everything in `N.WfOp` on targets at any depth, `Map.FromRaw` / `Slice.FromRaw` on containers
+at any depth, `Slice.MoveAndAppendTo` between slices at any depth -/
+theorem C07_nest_separation_full (prog : List N.OpR) (s : N.St) (hi : N.Inv s) (hw : N.WfProgX s prog) : N.Inv (N.runR s prog) := by
+  induction prog generalizing s with
+  | nil => exact hi
+  | cons op ops ih => exact ih _ (N.stepX_spec hi op hw.1).1 hw.2
+
+/-- independence for programs of ALL operations: a root no operation targets reads the same afterwards -/
+theorem C07_nest_frame_full (prog : List N.OpR) (s : N.St) (hi : N.Inv s) (hw : N.WfProgX s prog) (c : Nat)
+    (hc : ∀ op ∈ prog, c ∉ N.touchedR op) : N.absRoot (N.runR s prog) c = N.absRoot s c := by
+  induction prog generalizing s with
+  | nil => rfl
+  | cons op ops ih =>
+    obtain ⟨h1, h2⟩ := N.stepX_spec hi op hw.1
+    simp only [N.runR]
+    rw [ih _ h1 hw.2 (fun o ho => hc o (List.mem_cons_of_mem _ ho))]
+    exact h2 c (hc op List.mem_cons_self)
+
+/-- non-vacuity: two root slices with nested elements (a map holding bytes; a scalar), move-and-append into the NEVER-USED destination and
+into a used one, refill the source, edit the destination's adopted element, fill from raw: well-formed by `decide` -/
+example : N.WfProgX N.St.init [.base (.setRoot 0 (.list false)), .base (.setSlot 0 0 .push (.list true) 1), .base (.setSlot 0 1 (.key 4) (.bytes [7]) 1),
+    .base (.setSlot 0 0 .push (.scalar 0 5) 2), .base (.setRoot 1 (.list false)), .base (.moveAppend 0 0 1 3 0),
+    .base (.setSlot 0 0 .push (.scalar 0 9) 1), .base (.bytesAppend 1 2 8), .base (.moveAppend 0 0 1 3 4), .fromRawList 1 1 rawDemo] := by decide
+
+/-- …and with NESTED slices: a map whose entries 1 and 2 are slices (ids 1, 2), entry 1 holding a map with bytes; move-and-append from the
+slice under key 1 to the slice under key 2 of the SAME root, then edit the adopted element through its new owner -/
+example : N.WfProgX N.St.init [.base (.setRoot 0 (.list true)), .base (.setSlot 0 0 (.key 1) (.list false) 1), .base (.setSlot 0 0 (.key 2) (.list false) 2),
+    .base (.setSlot 0 1 .push (.list true) 1), .base (.setSlot 0 3 (.key 7) (.bytes [5]) 1), .base (.setSlot 0 2 .push (.scalar 0 1) 1),
+    .base (.moveAppend 0 1 0 2 2), .base (.bytesAppend 0 4 6), .base (.setSlot 0 1 .push (.scalar 0 2) 1), .base (.moveAppend 0 2 0 1 3)] := by decide
+
 /-! ## part D: primitive slices (`Model/C07Prim.lean`): elements by value, arrays re-used by `copyX` -/
 
 theorem P.PSt.ext' (p q : P.PSt) (hv : p.val = q.val) (hr : p.ro = q.ro) : p = q := by
@@ -1083,6 +1223,169 @@ theorem C07_slices_template_instances :
     (∀ e ∈ Gen.PdataSlices.elemSlices, e.2.2.2 = "ptr" ∨ e.2.2.2 = "value") ∧
     6 ≤ Gen.PdataSlices.primSlices.length ∧
     Gen.PdataSlices.incomplete = [("pcommon", "IntSlice", "All,Equal")] := by decide
+
+/-! ## part F: the read-only discipline with state propagation (`Model/C07State.lean`, regenerated `Gen/PdataState.lean`)
+
+Unlike `C07_readonly` / `C07_map_readonly` / `C07_nest_readonly` / `C07_prim_readonly` (which take the checked root as an input of the
+op), here a wrapper carries a state CELL, accessors hand a cell to the child wrapper, `MarkReadOnly` writes the cell of the payload and
+every mutator runs its leading `AssertMutable` statements — all of it interpreted from the table `pdatastate` regenerates from the
+source on every run (whose state each leading assertion checks, whose state every constructed child wrapper gets, for all 822 exported
+methods of all wrapper types). -/
+section PartF
+open OtelVerif.Gen.PdataState
+
+set_option maxRecDepth 200000 in
+/-- the regenerated method table passes the checks (decided over all methods of all wrapper types) -/
+theorem C07_state_table_ok :
+    chunks.all (fun ch => ch.all (fun m => S.methOk m && S.delegOk meths payloads m && S.noPayloadChild payloads m)) = true ∧
+    600 ≤ nMeths ∧ meths.length = nMeths ∧ payloads.length = 4 ∧ 4 ≤ nRootCtors := by
+  refine ⟨by decide, by decide, by decide, by decide, by decide⟩
+
+/-- **State propagation**: from a payload (or any) wrapper, along EVERY accessor path of the regenerated method table — any
+length, through slices, elements, maps, values, maps in values … — the wrapper reached carries the very state cell of the root -/
+theorem C07_state_reaches_root_cell (cs : S.Cells) (root : S.W) (steps : List S.Step)
+    (hv : S.Valid meths root.ty steps) (hn : S.NoCopy steps) : (S.follow cs root steps).cell = root.cell :=
+  S.follow_cell cs meths (fun _ hm => by have := (S.table_ok hm).1; simp only [S.methOk, Bool.and_eq_true] at this; exact this.1) steps root hv hn
+
+/-- no method of any wrapper type ever builds a wrapper with a fresh or foreign state: it is the receiver's or (inside `CopyTo`) the destination's -/
+theorem C07_state_no_foreign_state (cs : S.Cells) (m : Meth) (hm : m ∈ meths) (c : Child) (hc : c ∈ m.children) (recv param : Nat) :
+    S.cellOf cs recv param c.who = recv ∨ S.cellOf cs recv param c.who = param :=
+  S.child_cell_mem cs m (by have := (S.table_ok hm).1; simp only [S.methOk, Bool.and_eq_true] at this; exact this.1) c hc recv param
+
+/-- **Read-only clause, not definitional**: mark a payload read-only; take ANY value reachable from it through accessors (any path of
+the regenerated table) and ANY guarded mutator `m` of the type reached.  Calling `m` on that value panics at its FIRST statement; using the
+value as the destination of `CopyTo` panics at the first statement; using it as the destination of `MoveTo` / `MoveAndAppendTo` from a
+mutable source panics at the second statement, the first being the other assertion: in every case before anything was written. -/
+theorem C07_readonly_reachable_mutators (cs : S.Cells) (root : S.W) (steps : List S.Step)
+    (hv : S.Valid meths root.ty steps) (hn : S.NoCopy steps)
+    (m : Meth) (hm : m ∈ meths) (hg : m.cls = .guarded) (other : Nat) :
+    let cs' := S.markRO cs root
+    let w := S.follow cs' root steps
+    (m.role ≠ .copy → S.call cs' m w.cell other = .panicked 0) ∧
+    (m.role = .copy → S.call cs' m other w.cell = .panicked 0) ∧
+    (m.role = .move → cs'.ro other = false → S.call cs' m other w.cell = .panicked 1) := by
+  intro cs' w
+  have hc : w.cell = root.cell := C07_state_reaches_root_cell cs' root steps hv hn
+  have hro : cs'.ro w.cell = true := by rw [hc]; exact S.markRO_ro cs root
+  have hok : S.assertsOk m = true := by
+    have := (S.table_ok hm).1; simp only [S.methOk, Bool.and_eq_true] at this; exact this.2
+  obtain ⟨h1, _, _⟩ := S.guarded_panics cs' m hok hg w.cell other
+  obtain ⟨_, h2, h3⟩ := S.guarded_panics cs' m hok hg other w.cell
+  exact ⟨fun hne => h1 hne hro, fun he => h2 he hro, fun he ho => h3 he ho hro⟩
+
+/-- every mutator is covered by the previous theorem: a method of the table is a reader, a guarded mutator, or one of the payload
+`CopyTo`s whose body is `ms.A().CopyTo(dest.A())` with `A().CopyTo` guarded on the destination (there is no unguarded writer) -/
+theorem C07_readonly_mutators_classified (m : Meth) (hm : m ∈ meths) :
+    m.cls = .reader ∨ m.cls = .guarded ∨
+    (m.cls = .delegating ∧ m.role = .copy ∧ m.typ ∈ payloads ∧
+      ∃ c ∈ m.children, c.who = .recv ∧ ∃ m' ∈ meths, m'.typ = c.typ ∧ m'.role = .copy ∧ m'.cls = .guarded ∧ m'.asserts = [.param]) := by
+  obtain ⟨h1, h2, _⟩ := S.table_ok hm
+  simp only [S.methOk, Bool.and_eq_true] at h1
+  have ha := h1.2
+  cases hc : m.cls with
+  | reader => exact Or.inl rfl
+  | guarded => exact Or.inr (Or.inl rfl)
+  | unguarded => simp [S.assertsOk, hc] at ha
+  | delegating =>
+    refine Or.inr (Or.inr ⟨rfl, ?_, ?_, ?_⟩)
+    · simp only [S.assertsOk, hc, Bool.and_eq_true, beq_iff_eq] at ha; exact ha.1.1.1
+    · simp only [S.delegOk, hc, bne_self_eq_false, Bool.false_or, Bool.and_eq_true, List.contains_eq_mem, decide_eq_true_eq] at h2
+      exact h2.1
+    · simp only [S.delegOk, hc, bne_self_eq_false, Bool.false_or, Bool.and_eq_true, List.any_eq_true, beq_iff_eq] at h2
+      obtain ⟨_, c, hcm, hw, m', hm', hq⟩ := h2
+      exact ⟨c, hcm, hw, m', hm', hq.1.1.1, hq.1.1.2, hq.1.2, hq.2⟩
+
+/-- "…while all readers keep working": a reader of the table asserts nothing anywhere and writes nothing; it runs on every value
+reachable from a read-only payload; and `CopyTo` FROM such a value into a mutable destination runs too (a consumer's clone) -/
+theorem C07_readonly_readers_work (cs : S.Cells) (root : S.W) (steps : List S.Step)
+    (m : Meth) (hm : m ∈ meths) (other : Nat) :
+    let cs' := S.markRO cs root
+    let w := S.follow cs' root steps
+    (m.cls = .reader → S.call cs' m w.cell other = .ran ∧ m.later = false ∧ m.writes = false) ∧
+    (m.cls = .guarded → m.role = .copy → cs'.ro other = false → S.call cs' m w.cell other = .ran) := by
+  intro cs' w
+  have hok : S.assertsOk m = true := by
+    have := (S.table_ok hm).1; simp only [S.methOk, Bool.and_eq_true] at this; exact this.2
+  exact ⟨fun hr => S.reader_runs cs' m hok hr _ _, fun hg he ho => (S.guarded_runs cs' m hok hg w.cell other).1 he ho⟩
+
+/-- marking one payload read-only does not freeze another: values reachable from a payload with a different cell stay mutable for
+every guarded mutator (so the clause is about THIS payload's cell, not a global flag) -/
+theorem C07_readonly_other_payload_mutable (cs : S.Cells) (root root2 : S.W) (hne : root2.cell ≠ root.cell) (h2 : cs.ro root2.cell = false)
+    (steps : List S.Step) (hv : S.Valid meths root2.ty steps) (hn : S.NoCopy steps)
+    (m : Meth) (hm : m ∈ meths) (hg : m.cls = .guarded) (he : m.role = .other) (other : Nat) :
+    S.call (S.markRO cs root) m (S.follow (S.markRO cs root) root2 steps).cell other = .ran := by
+  have hc := C07_state_reaches_root_cell (S.markRO cs root) root2 steps hv hn
+  have hok : S.assertsOk m = true := by
+    have := (S.table_ok hm).1; simp only [S.methOk, Bool.and_eq_true] at this; exact this.2
+  refine (S.guarded_runs _ m hok hg _ other).2.2 he ?_
+  rw [hc, S.markRO_other cs root _ hne]; exact h2
+
+/-- the four payload `CopyTo`s (bodies `ms.A().CopyTo(dest.A())`, shape checked by the translator): copying INTO a read-only payload
+panics in the first statement of the child's `CopyTo` — the delegating body has written nothing; into a mutable payload it runs,
+whatever the source's state -/
+theorem C07_readonly_delegating_copy (cs : S.Cells) (m : Meth) (hm : m ∈ meths) (hd : m.cls = .delegating) (recv param : Nat) :
+    (cs.ro param = true → S.callD meths cs m recv param = .panicked 0) ∧
+    (cs.ro param = false → S.callD meths cs m recv param = .ran) :=
+  S.callD_delegating meths payloads cs m hd (S.table_ok hm).2.1 recv param
+
+/-- payload wrappers are roots only (no accessor builds one), so "reachable from a payload" never re-enters another payload -/
+theorem C07_state_payloads_are_roots (m : Meth) (hm : m ∈ meths) (c : Child) (hc : c ∈ m.children) : c.typ ∉ payloads := by
+  have := (S.table_ok hm).2.2
+  simp only [S.noPayloadChild, List.all_eq_true, Bool.not_eq_true', List.contains_eq_mem, decide_eq_false_iff_not] at this
+  exact this c hc
+
+/-- per-type operation table of the generated element slices (regenerated by `pdatastate`), cross-checked against the template-instance
+list of `pdataslices`: the same 29 types, and each has exactly the operation set of its template (`Sort` on pointer slices only) -/
+theorem C07_slice_op_tables :
+    sliceOps.map (fun e => (e.1, e.2.1, e.2.2.contains "Sort")) = Gen.PdataSlices.elemSlices.map (fun e => (e.1, e.2.1, e.2.2.2 == "ptr")) ∧
+    (∀ e ∈ sliceOps, e.2.2 = ["All", "AppendEmpty", "At", "CopyTo", "EnsureCapacity", "Len", "MoveAndAppendTo", "RemoveIf", "Sort"] ∨
+                     e.2.2 = ["All", "AppendEmpty", "At", "CopyTo", "EnsureCapacity", "Len", "MoveAndAppendTo", "RemoveIf"]) := by
+  refine ⟨by decide, by decide⟩
+
+
+/-! non-vacuity: a concrete access path of the regenerated table, found by NAME (`S.pathOf`; so it does not depend on the numbering):
+Logs → ResourceLogs() → At → ScopeLogs() → At → LogRecords() → At → Attributes() → Get → Map() → Get → Slice() → At → Map(), 13 accessor steps -/
+
+set_option maxRecDepth 200000 in
+example : S.demoPath.map (fun ss => ss.length == 13 && ss.all (fun s => s.m.role != .copy && s.c.who == .recv) &&
+      S.endTy (S.tyOf "plog.Logs") ss == S.tyOf "pcommon.Map" && payloads.contains (S.tyOf "plog.Logs")) = some true := by decide
+
+example : ∀ ss, S.demoPath = some ss → S.Valid meths (S.tyOf "plog.Logs") ss := fun ss h => S.pathOf_valid meths _ _ ss h
+
+
+end PartF
+
+/-! ## all families in one statement
+
+`C07_value_semantics_partial` above bundles part A only.  This is the bundle over every modelled family; what keeps it **partial**
+with respect to the property text is named in the report (record embedding and message ∘ container composition are differentials,
+nested `Value.MoveTo` / `Map.MoveTo` are outside `N.WfProgX`). -/
+theorem C07_value_semantics_all_partial :
+    -- (A) generated pointer slices: separation + refinement to lists with assignment semantics, every program
+    (∀ (prog : List Op) (s : St), Inv s → (∀ op ∈ prog, WfOp op) → Inv (run s prog) ∧ abs (run s prog) = prun (abs s) prog) ∧
+    -- (B) attribute maps: separation + refinement to association lists, every program
+    (∀ (prog : List M.Op) (s : M.St), M.Inv s → (∀ op ∈ prog, M.WfOp op) →
+      M.Inv (M.run s prog) ∧ M.abs (M.run s prog) = M.prun (M.abs s) prog) ∧
+    -- (C) nested values: forest invariant + independence of every untouched root, every program of operations at any depth incl.
+    -- from-raw on containers at any depth and move-and-append between slices at any depth
+    (∀ (prog : List N.OpR) (s : N.St), N.Inv s → N.WfProgX s prog →
+      N.Inv (N.runR s prog) ∧ ∀ c, (∀ op ∈ prog, c ∉ N.touchedR op) → N.absRoot (N.runR s prog) c = N.absRoot s c) ∧
+    -- (D) primitive slices: refinement, every program
+    (∀ (prog : List P.Op) (s : P.St), P.abs (P.run s prog) = P.prun (P.abs s) prog) ∧
+    -- (E) every generated message struct: copy into any same-shaped destination = source
+    (∀ m ∈ Gen.PdataMsg.msgs, ∀ (src dst : List Msg.FV), Msg.wellTyped (m.fields.map (·.2)) src = true → dst.length = src.length →
+      Msg.copyMsg (m.fields.map (·.2)) src dst = src) ∧
+    -- (F) read-only: every guarded mutator of the regenerated table, at every value reachable from a payload marked read-only, panics
+    -- at its first statement
+    (∀ (cs : S.Cells) (root : S.W) (steps : List S.Step), S.Valid Gen.PdataState.meths root.ty steps → S.NoCopy steps →
+      ∀ m ∈ Gen.PdataState.meths, m.cls = .guarded → m.role ≠ .copy → ∀ other,
+        S.call (S.markRO cs root) m (S.follow (S.markRO cs root) root steps).cell other = .panicked 0) :=
+  ⟨fun prog s hi hw => ⟨C07_separation prog s hi hw, C07_refines prog s hi hw⟩,
+   fun prog s hi hw => ⟨C07_map_separation prog s hi hw, C07_map_refines prog s hi hw⟩,
+   fun prog s hi hw => ⟨C07_nest_separation_full prog s hi hw, fun c hc => C07_nest_frame_full prog s hi hw c hc⟩,
+   C07_prim_refines,
+   fun m hm src dst ht hl => C07_msg_all_copy_eq m hm src dst ht hl,
+   fun cs root steps hv hn m hm hg hr other => (C07_readonly_reachable_mutators cs root steps hv hn m hm hg other).1 hr⟩
 
 /-! ## the pinned `CopyTo` does not have the property (what the repair is for) -/
 
